@@ -1,5 +1,6 @@
 import ServiceModel.Proofs.Genesis
 import ServiceModel.Proofs.EarnKeys
+import ServiceModel.Proofs.Valid
 /-!
 # C19 — State survives export and re-import; zero-height export returns all escrow
 
@@ -65,25 +66,42 @@ theorem prep_keeps_other_records (hc : CfgOK cfg p) {s : State} (hr : Reachable 
   obtain ⟨_, b', hs, _⟩ := prep_spec (reachable_inv hc hr) (earners_are_not_escrow hr)
   rw [hs]; exact ⟨rfl, rfl, rfl, rfl, rfl, rfl, rfl, rfl⟩
 
-/-- Validation of the genesis exported after the preparation, *partial*: the two state requirements of
-    `ValidateGenesis` (paused, batch completed) are established by the preparation; that each record is valid on its
-    own (`hrec`: names, addresses, fee cap, as checked when the record was created) is a hypothesis here, sampled by
-    the correspondence run on every generated history and not proved as an invariant of the model. -/
-theorem validate_after_prep_partial (s : State) (hnp : (prep s).panic = none)
-    (hrec : paramsValid s.params = true ∧ (entries (prep s).s.defs).all (fun e => defValid e.1 e.2) = true ∧
-      (entries (prep s).s.bindings).all (fun e => bindingValid e.1 e.2) = true ∧
-      (entries (prep s).s.withdraw).all (fun e => wdKeyValid e.1) = true ∧
-      (∀ c x, get s.ctxs c = some x → ctxValid (resetCtx x) = true))
-    (hpar : (prep s).s.params = s.params) :
+/-- The genesis exported after the preparation always passes validation (on the fields the model carries): the
+    parameters are legal, every definition, binding, withdraw-address key and context is valid on its own
+    (invariants `recOK`, `ctxsFieldsOK`: records are only written by messages that passed stateless validation, or by
+    another module passing valid arguments — assumptions E1/E8 carried by `WF`), and the preparation has paused every
+    context with its batch completed. -/
+theorem validate_after_prep (hc : CfgOK cfg p) {s : State} (hr : Reachable cfg p h0 t0 s) :
     validateG (exportG (prep s).s) = true := by
-  obtain ⟨h1, h2, h3, h4, h5⟩ := hrec
+  have hinv := reachable_inv hc hr
+  obtain ⟨hnp, _⟩ := prep_succeeds_and_empties_escrow hc hr
+  obtain ⟨e1, e2, e3, e4, _⟩ := prep_keeps_other_records hc hr
+  have hrec := recOK hr
+  have hctx := ctxsFieldsOK hc hr
   unfold validateG exportG
-  simp only [Bool.and_eq_true, hpar]
-  refine ⟨⟨⟨⟨h1, h2⟩, h3⟩, h4⟩, ?_⟩
-  rw [List.all_eq_true]
-  rintro ⟨c, x⟩ hm
-  obtain ⟨_, _, _, _, x0, hx0, rfl⟩ := prep_ctxs s hnp c x ((mem_entries _ _ _).mp hm)
-  exact h5 c x0 hx0
+  simp only [Bool.and_eq_true, e1, e2, e3, e4]
+  refine ⟨⟨⟨⟨?_, ?_⟩, ?_⟩, ?_⟩, ?_⟩
+  · unfold paramsValid
+    simp only [Bool.and_eq_true, decide_eq_true_eq]
+    have hs := hinv.static
+    exact ⟨⟨⟨⟨⟨by have := hs.maxT_pos; omega, by have := hs.mult_pos; omega⟩, hs.tax_lt⟩, hs.slash_le⟩,
+      hs.complaint_pos⟩, hs.arbitration_pos⟩
+  · rw [List.all_eq_true]
+    rintro ⟨n, d⟩ hm
+    exact hrec.defs n d ((mem_entries _ _ _).mp hm)
+  · rw [List.all_eq_true]
+    rintro ⟨k, b⟩ hm
+    exact hrec.binds k b ((mem_entries _ _ _).mp hm)
+  · rw [List.all_eq_true]
+    rintro ⟨o, a⟩ hm
+    exact hrec.wd o a ((mem_entries _ _ _).mp hm)
+  · rw [List.all_eq_true]
+    rintro ⟨c, x⟩ hm
+    obtain ⟨_, _, _, _, x0, hx0, rfl⟩ := prep_ctxs s hnp c x ((mem_entries _ _ _).mp hm)
+    have := hctx c x0 hx0
+    unfold ctxValid
+    simp only [Bool.and_eq_true, decide_eq_true_eq]
+    exact ⟨⟨this, rfl⟩, rfl⟩
 
 /-! ### export → import → export -/
 theorem importBindings_some (L : List ((SvcName × Addr) × Binding)) :
